@@ -79,6 +79,7 @@ func (bs *blockState) makeIface(t types.Type, v Val, name string) (tag, payload 
 func (bs *blockState) makeInterface(x *ssa.MakeInterface) {
 	v := bs.val(x.X)
 	tag, pl := bs.makeIface(x.X.Type(), v, x.Name())
+	bs.e.dynType[pl] = x.X.Type()
 	bs.e.regs[x] = Val{x.Type(), []string{tag, pl}}
 }
 
@@ -785,4 +786,43 @@ func (e *Enc) globalByName(c *Ctx, name string) (Val, bool) {
 		return e.loadGlobal(c.St, g), true
 	}
 	return Val{}, false
+}
+
+// ---------- ghost variables ----------
+
+func ghostKey(name string, j int) string { return fmt.Sprintf("g:ghost.%s:%d", name, j) }
+
+func (e *Enc) ghostGet(st *State, name, gt string) Val {
+	t := specType(gt)
+	v := Val{T: t}
+	for j, so := range flatten(t) {
+		v.C = append(v.C, e.heapKey(st, ghostKey(name, j), so))
+	}
+	return v
+}
+
+// havocObject forgets the fields of the struct object at ref (and of struct values nested in it).
+func (bs *blockState) havocObject(t types.Type, ref string) {
+	e := bs.e
+	st, ok := t.Underlying().(*types.Struct)
+	if !ok {
+		for j, so := range flatten(t) {
+			k := ptrKey(t, j)
+			h := e.heapKey(bs.st, k, "(Array Int "+so+")")
+			nh := e.fresh("hv."+k, "(Array Int "+so+")")
+			e.def(eq(nh, app("store", h, ref, e.fresh("hvv", so))))
+			bs.st.m[k] = nh
+		}
+		return
+	}
+	for i := 0; i < st.NumFields(); i++ {
+		ft := st.Field(i).Type()
+		if _, nested := ft.Underlying().(*types.Struct); nested {
+			bs.havocObject(ft, subRef(ref, i))
+			continue
+		}
+		v := e.freshVal("hv."+st.Field(i).Name(), ft)
+		e.assume(bs.g, e.typeFacts(v))
+		e.storeFieldFlat(bs.st, t, i, ref, v)
+	}
 }
